@@ -9,6 +9,7 @@ CONSTANTS K = 2
           MaxClock = 1000000
           LibFoldersInKey = FALSE
           Beyond = {}
+          OptionValuesCompared = TRUE
           FreshLibHandles = FALSE
 INIT Init
 NEXT Next
@@ -16,4 +17,5 @@ VIEW View
 INVARIANT TypeOK
 INVARIANT ClockInv
 INVARIANT ResultIsFresh
+PROPERTY ResultIsFreshAct
 CHECK_DEADLOCK FALSE
